@@ -20,6 +20,7 @@ static long g_unexpectedCopies = 0; // a copy happened that the harness did not 
 static int  g_cloneId = 0;          // lifetime id to stamp on the next announced copy
 class Obj;
 static const Obj * g_default = NULL;
+static bool g_inProbe = false, g_keepStderr = false;
 static void Log(char k, int id, const void * a) { if (g_logN < 128) { g_log[g_logN].kind = k; g_log[g_logN].id = id; g_log[g_logN].addr = a; g_logN++; } else g_logOverflow = true; }
 
 class Obj : public RefCountable {
@@ -356,6 +357,34 @@ public:
       RefModel m2 = w.m; int newObj = -1;
       if (!Step(m2, o, w.nextId, 0, newObj)) return seqx::SEQX_DISABLED;
       if (!m2.InDomain(maxLive)) return seqx::SEQX_DISABLED;
+      bool probeFirst = false;
+      if (o.k == ADOPT_LINK && !g_inProbe) {   // would the new referent die if the old reference were dropped BEFORE the new one is taken?
+         RefModel m3 = w.m; const int target = m3.objs[m3.v[o.a].obj].link; m3.Drop(m3.v[o.a]); probeFirst = !m3.objs[target].alive;
+      }
+      if (probeFirst) {
+         // On the pinned tree this operation then releases the object it is about to reference (a heap object: use-after-free, ASan kills the
+         // process): run it first in a forked child, so that the exploring worker survives and the exploration stays complete.
+         int pfd[2]; if (pipe(pfd) != 0) { perror("pipe"); exit(3); }
+         fflush(stdout); fflush(stderr);
+         const pid_t pid = fork(); if (pid < 0) { perror("fork"); exit(3); }
+         if (pid == 0) {
+            close(pfd[0]); g_inProbe = true;
+            if (!g_keepStderr) { int dn = open("/dev/null", O_WRONLY); if (dn >= 0) dup2(dn, 2); }
+            std::string cm, ck; const int st = Apply(w, opi, cm, ck);
+            const std::string out = verif::Fmt("%d\n", st) + ck + "\n" + cm;
+            if (write(pfd[1], out.data(), out.size()) < 0) {}
+            _exit(0);
+         }
+         close(pfd[1]); std::string got; char buf[4096]; ssize_t n; while ((n = read(pfd[0], buf, sizeof(buf))) > 0) got.append(buf, (size_t)n); close(pfd[0]);
+         int st = 0; waitpid(pid, &st, 0);
+         if (!(WIFEXITED(st) && WEXITSTATUS(st) == 0)) {
+            const std::string what = WIFSIGNALED(st) ? verif::Fmt("sig%d", WTERMSIG(st)) : verif::Fmt("exit%d", WEXITSTATUS(st));
+            FAIL("fatal:" + what, "process death (" + what + "; exit87 = AddressSanitizer report, here: the Ref increments the count of an object that the same assignment has just deleted)");
+         }
+         const size_t a = got.find('\n'), b = (a == std::string::npos) ? a : got.find('\n', a + 1);
+         if (b == std::string::npos) { msg = "probe child returned garbage"; key = "infra"; return -1; }
+         if (atoi(got.c_str()) != seqx::SEQX_OK) { key = got.substr(a + 1, b - a - 1); msg = got.substr(b + 1); w.broken = true; return atoi(got.c_str()); }
+      }
       g_logN = 0; g_logOverflow = false; g_cloneId = 0;
       const RefModel & m = w.m;   // state before the op
       std::string res;
@@ -478,7 +507,7 @@ int main(int argc, char ** argv)
    int maxLive = 3; if (args.kv.count("maxlive")) maxLive = atoi(args.kv["maxlive"].c_str());
    RefCountModel model(maxLive);
    seqx::Explorer<RefCountModel> ex(model, args, res, "refcount-seq");
-   if (!args.replay.empty()) { verif::ReplayDoc d; if (!d.Load(args.replay)) { fprintf(stderr, "cannot read %s\n", args.replay.c_str()); return 3; } return ex.ReplayFile(d); }
+   if (!args.replay.empty()) { g_keepStderr = true; verif::ReplayDoc d; if (!d.Load(args.replay)) { fprintf(stderr, "cannot read %s\n", args.replay.c_str()); return 3; } return ex.ReplayFile(d); }
    ex.SetDeadline(args.t0 + args.deadline * 0.9);
    int depth = args.Thorough() ? 6 : 5;
    if (args.kv.count("depth")) depth = atoi(args.kv["depth"].c_str());
